@@ -58,7 +58,7 @@ def run_mc(cfg, workers):
     cex = parse_printed(r["printed"]["CEX"], "CEX")
     if len(cases) != r["printed_counts"]["CASE"]:
         raise ToolError("could not parse every generated case of " + cfg)
-    classes = sorted(set("%s/%s/%s" % (c["p"], ("json~" if c["p"] == "CrossEqual" else "") + c["blame"], d)
+    classes = sorted(set("/".join(key_of(c["p"], c["e"], c.get("inh") or [], d).split("/")[1:])
                          for c in cex for d in (c.get("diff") or ["unequal"])))
     st = {"cfg": cfg, "states": r["states"], "transitions": r["transitions"], "depth": r["depth"], "completed": r["completed"],
           "cases_printed": len(cases), "model_counterexamples_printed": len(cex), "model_violation_classes": classes,
@@ -100,13 +100,20 @@ def trace_validate(ndjson, tag, workers):
             parse_printed(first["printed"]["NONCONF"], "NONCONF") + [{"line": -1, "b": -1, "ev": "?", "e": "-", "what": "LayerM-evaluation-aborted"}], False)
 
 
+def key_of(monitor, e, inherited, d):
+    """C08/<monitor>/<encoding layer responsible>/<field class>: a slatepack carries the binary slate,
+    so a difference the binary slate shows by itself is attributed to 'bin'"""
+    if d in inherited:
+        e = "json~bin" if monitor == "CrossEqual" else "bin"
+    return "%s/%s/%s/%s" % (PROP, monitor, e, d)
+
+
 def keys_of(viols, events):
     """a finding key per (monitor, responsible encoding layer, differing field class)"""
     keys = {}
     for v in sorted(viols, key=lambda v: (v["b"], v["m"], v["e"])):
-        who = v["blame"] if v["m"] != "CrossEqual" else "json~" + v["blame"]
         for d in (v.get("diff") or ["unequal"]):
-            key = "%s/%s/%s/%s" % (PROP, v["m"], who, d)
+            key = key_of(v["m"], v["e"], v.get("inh") or [], d)
             k = keys.setdefault(key, {"count": 0, "encodings": set(), "case_index": v["b"], "kind": v["ev"]})
             k["count"] += 1
             k["encodings"].add(v["e"])
